@@ -365,8 +365,79 @@ pub fn check_reader(shape: &Shape, values: &[Value], sched: &Sched, l: &mut Loca
     Ok(())
 }
 
+/// Corrupt / hostile length prefixes: the reader path answers like the slice path (Ok with the same value, or Err), never
+/// panics, never writes outside the scratch buffer (guard pages), whatever was borrowed before the bad prefix.
+pub fn check_reader_hostile(shape: &Shape, input: &[u8], sched: &Sched, scratch_len: usize, l: &mut Local) -> CaseResult {
+    let cj_owned = json!({"shape": shape, "what": "reader-hostile", "input": hex(input), "sched": sched, "scratch": scratch_len});
+    let cj = || cj_owned.clone();
+    if crate::refcodec::ref_decode(shape, input).err() == Some(crate::refcodec::DecErr::ZeroWidthSkip) {
+        l.skipped += 1;
+        return Ok(());
+    }
+    set_pending(&cj_owned.to_string());
+    let (slice_r, log) = with_shape(shape, || no_panic(|| postcard::take_from_bytes::<Dyn>(input).map(|(d, rest)| (d, rest.len()))));
+    if log.skipped_zero_width {
+        clear_pending();
+        l.skipped += 1;
+        return Ok(());
+    }
+    let slice_r = slice_r.map_err(|p| fail("io", format!("take_from_bytes panicked: {}", p), cj()))?;
+    for eio in [false, true] {
+        let who = if eio { "from_eio" } else { "from_io" };
+        for flush in [Flush::End, Flush::Start] {
+            l.eval();
+            let got = ARENA.with(|a| {
+                let mut a = a.borrow_mut();
+                let scratch: &mut [u8] = a.slice(scratch_len, flush);
+                scratch.fill(0xDD);
+                let rd = SharedReader::new(ChunkReader::new(input, sched.to(), Fault::None));
+                let (r, log) = with_shape(shape, || {
+                    no_panic(|| {
+                        if eio {
+                            postcard::from_eio::<Dyn, _>((rd.clone(), scratch)).map(|(d, _)| d)
+                        } else {
+                            postcard::from_io::<Dyn, _>((rd.clone(), scratch)).map(|(d, _)| d)
+                        }
+                    })
+                });
+                (r, log.skipped_zero_width, rd.pos())
+            });
+            let (r, skipped, pos) = got;
+            if skipped {
+                continue;
+            }
+            let r = r.map_err(|p| fail("io", format!("{} panicked on a corrupt length prefix: {}", who, p), cj()))?;
+            match (&slice_r, &r) {
+                (Ok((Dyn(a), rest)), Ok(Dyn(b))) => {
+                    if a != b || pos != input.len() - rest {
+                        return Err(fail("io", format!("{}: value / consumed bytes differ from the slice path ({} vs {})", who, pos, input.len() - rest), cj()));
+                    }
+                }
+                (Err(_), Err(_)) => {}
+                // a scratch buffer that is too small is a legitimate extra reason to fail
+                (Ok(_), Err(_)) if scratch_len < input.len() => {}
+                (a, b) => {
+                    return Err(fail(
+                        "io",
+                        format!("{} gave {:?} where slice decoding gives {:?}", who, b.as_ref().map(|_| "Ok").map_err(|e| format!("{:?}", e)), a.as_ref().map(|_| "Ok").map_err(|e| format!("{:?}", e))),
+                        cj(),
+                    ))
+                }
+            }
+        }
+    }
+    l.class("reader-hostile-length");
+    l.nontrivial(&(shape, input, scratch_len, 11u8));
+    clear_pending();
+    Ok(())
+}
+
 pub fn replay(case: &Json, l: &mut Local) -> CaseResult {
     let shape = shape_of(case);
+    if case["what"].as_str() == Some("reader-hostile") {
+        let sched: Sched = serde_json::from_value(case["sched"].clone()).unwrap_or(Sched { chunks: vec![], interrupt_every: 0 });
+        return check_reader_hostile(&shape, &crate::runner::unhex(case["input"].as_str().unwrap_or("")), &sched, case["scratch"].as_u64().unwrap_or(0) as usize, l);
+    }
     let sched: Sched = serde_json::from_value(case["sched"].clone()).unwrap_or(Sched { chunks: vec![], interrupt_every: 0 });
     if case["what"].as_str() == Some("reader") {
         let values: Vec<Value> = serde_json::from_value(case["values"].clone()).unwrap();
@@ -393,7 +464,7 @@ pub fn run(ctx: &Ctx) {
          messages through one reader and scratch. oracle: writer receives exactly the reference encoding, a prefix on failure, \
          flush last; reader value == slice-path value, reader position == encoded length, borrowed fields disjoint/in order/inside \
          the scratch, returned scratch is the tail, Err (never panic) on faults or too-small scratch, success monotone in scratch \
-         size, must fail below the borrowed total and succeed at the encoded length. non-trivial = fault strictly inside a message, \
+         size, must fail below the borrowed total and succeed at the encoded length; with one length prefix replaced by a hostile value (usize::MAX-k, 2^63+k, 2^32, 2^16, len+k, k) the reader path answers like the slice path and never panics. non-trivial = fault strictly inside a message, \
          or >= 2 messages on one stream; distinct = hash(adapter, fault, stream, schedule)",
     );
     ctx.assume("embedded-io forbids write() returning Ok(0) for non-empty input, so the eio writer double reports an error instead (EOF-style faults only on std::io::Write)");
@@ -416,6 +487,45 @@ pub fn run(ctx: &Ctx) {
             })
         },
         |(s, vs, sched), l| check_reader(s, vs, sched, l),
+    );
+    // corrupt length prefixes behind earlier borrows
+    ctx.par_proptest(
+        "reader-hostile-lengths",
+        n,
+        || {
+            let shapes = borrowing_shapes();
+            (0..shapes.len() + 2, arb_sched(), any::<u16>(), 0u64..70).prop_flat_map(move |(si, sched, pick, k)| {
+                let s = if si < shapes.len() { Just(shapes[si].clone()).boxed() } else { gen::arb_shape(ShapeCfg { depth: 3, ..ShapeCfg::default() }) };
+                s.prop_flat_map(move |s| {
+                    let v = gen::arb_value(&s, ValCfg { max_len: 30, max_seq: 3 });
+                    (Just(s), v, Just(sched.clone()), Just(pick), Just(k))
+                })
+            })
+        },
+        |(s, v, sched, pick, k), l| {
+            let Ok(e) = ref_encode(s, v) else { return Ok(()) };
+            let lens: Vec<usize> = e.varint_spans.iter().enumerate().filter(|(_, sp)| sp.2 == 64).map(|(i, _)| i).collect();
+            if lens.is_empty() {
+                return Ok(());
+            }
+            let idx = lens[gen::pick_idx(*pick, lens.len())];
+            let total = e.bytes.len() as u128;
+            for c in [
+                u64::MAX as u128 - *k as u128,
+                u64::MAX as u128,
+                u64::MAX as u128 - total,
+                (u64::MAX / 2) as u128 + *k as u128,
+                1u128 << 32,
+                1u128 << 16,
+                total + *k as u128,
+                *k as u128,
+            ] {
+                let b = crate::mutate::replace_varint(&e, idx, c);
+                check_reader_hostile(s, &b, sched, e.bytes.len() + 8, l)?;
+                check_reader_hostile(s, &b, sched, (*k as usize) % (e.bytes.len() + 1), l)?;
+            }
+            Ok(())
+        },
     );
     ctx.par_proptest(
         "reader-borrowing-types",
